@@ -16,7 +16,7 @@ Module for utilities.
 import sys
 import copy as cp
 from typing import Any, List, Optional, Text
-from threading import Timer
+from threading import Lock, Timer
 from time import time
 from datetime import timedelta
 
@@ -241,6 +241,8 @@ class ProgressBar(BaseProgress):
     def __init__(self, max_value, title = None):
         """Create a ProgressBar object. """
         self._timer = None
+        self._lock = Lock()
+        self._active = False
         self._start_time = time()
         self._file = sys.stdout
         self.max_value = max_value
@@ -252,8 +254,11 @@ class ProgressBar(BaseProgress):
         """Context enter. """
         if self.title is not None:
             print(self.title, file=self._file, flush=True)
-        self._timer = Timer(1.0, self._print_status)
-        self._timer.start()
+        with self._lock:
+            self._active = True
+            self._timer = Timer(1.0, self._print_status)
+            self._timer.daemon = True
+            self._timer.start()
         return self
 
     def _print_status(self):
@@ -280,7 +285,9 @@ class ProgressBar(BaseProgress):
 
     def exit(self):
         """Context exit. """
-        self._timer.cancel()
+        with self._lock:
+            self._active = False
+            self._timer.cancel()
         self._print_status()
         delta_t = time() - self._start_time
         print("\nElapsed time: {:.1f}s".format(delta_t),
@@ -289,12 +296,19 @@ class ProgressBar(BaseProgress):
 
     def update(self, step=None):
         """Update the progress. """
-        self._timer.cancel()
-        self._timer = Timer(1.0, self.update)
-        self._timer.start()
-        if step is not None:
-            self._step = step
-        self._print_status()
+        # Also called from the timer thread: the lock makes cancel / re-arm
+        # atomic with respect to exit(), and a callback that comes too late
+        # (after exit) must not re-arm the timer.
+        with self._lock:
+            if not self._active:
+                return
+            self._timer.cancel()
+            self._timer = Timer(1.0, self.update)
+            self._timer.daemon = True
+            self._timer.start()
+            if step is not None:
+                self._step = step
+            self._print_status()
 
 
 PROGRESS_DICT = {
